@@ -2,6 +2,7 @@ from __future__ import annotations
 
 import copy
 import numbers
+import operator
 import re
 from collections import abc
 from typing import Union, List, Iterable, Any, Optional
@@ -247,7 +248,7 @@ class BitArray(Bits):
             raise ValueError("Cannot shift an empty bitstring.")
         if not n:
             return self
-        n = min(int(n), len(self))
+        n = min(operator.index(n), len(self))
         return self._irshift(n)
 
     def __imul__(self: TBits, n: int) -> TBits:
